@@ -109,6 +109,14 @@ func c03Scenarios() []hpScenario {
 			}
 		}
 	}
+	// the global deadline falls inside a retry back-off (per-try timeout 100 ms, back-off 10 ms: attempts at
+	// 0, 110, 220 ms) or exactly on a retry's send
+	for _, g := range []int{105, 110, 215} {
+		for _, second := range []string{upReply200, upSilent} {
+			add(hpScenario{Hosts: 2, RouteTimeoutMs: g, TryTimeoutMs: 100, RetryOn: true, NumRetries: 3,
+				Requests: []hpRequest{{Token: "t1", Script: []string{upSilent, second, second}}}})
+		}
+	}
 	// MOSN-generated errors before any upstream attempt
 	add(hpScenario{Hosts: 1, NoRoute: true, RouteTimeoutMs: 1000, Requests: []hpRequest{{Token: "t1", Script: []string{upReply200}}}})
 	add(hpScenario{Hosts: 1, NoHosts: true, RouteTimeoutMs: 1000, Requests: []hpRequest{{Token: "t1", Script: []string{upReply200}}}})
